@@ -314,11 +314,11 @@ def bounds(tier, h):
     by the (large) number of line-level points: it is kept for the small harnesses only."""
     nodes = sum(size(t) for p in h.progs for t in p)
     if len(h.progs) == 1:
-        return (0, 0) if tier == "quick" else ((0, 1) if nodes <= 3 else (0, 0))
+        return (0, 0) if tier == "quick" else ((0, 1) if nodes <= 2 else (0, 0))
     if tier == "quick":
         return (1, 0)
-    # two threads, thorough: pairs of <= 3 nodes with PB 1 and one clock tick; pairs of 2 nodes with PB 2
-    return (2, 1) if nodes <= 2 else (1, 1)
+    # two threads, thorough: pairs of 3 nodes with PB 1; pairs of 2 nodes with PB 2 and one clock tick
+    return (2, 1) if nodes <= 2 else (1, 0)
 
 
 def shard(part, shard_i, nshards, tier, seed, deadline):
@@ -331,7 +331,7 @@ def shard(part, shard_i, nshards, tier, seed, deadline):
 
 def run(ctx):
     hs = harnesses(ctx.tier)
-    ctx.bounds = {"tree_nodes": 4 if ctx.tier == "quick" else 5, "two_threads(PB,TB)": (1, 0) if ctx.tier == "quick" else "pairs of <= 3 nodes (1, 1); pairs of 2 nodes (2, 1)", "single_thread(PB,TB)": "(0, 1) up to 3 nodes, (0, 0) above", "harnesses": len(hs)}
+    ctx.bounds = {"tree_nodes": 4 if ctx.tier == "quick" else 5, "two_threads(PB,TB)": (1, 0) if ctx.tier == "quick" else "pairs of 3 nodes (1, 0); pairs of 2 nodes (2, 1)", "single_thread(PB,TB)": "(0, 1) up to 2 nodes, (0, 0) above", "harnesses": len(hs)}
     ctx.assumptions = ["controlled clock; Condition.wait(timeout) = blocked until notified or clock >= deadline", "preemption at sync operations and line boundaries of the trampoline files"]
     ctx.sharded(shard, nshards=min(len(hs), max(1, ctx.workers) * 8))
     ilvrun.finish_cov(ctx, ctx.total)
